@@ -39,6 +39,9 @@ static const Alphabet alphabets[] = {
 		3, { "0:inf", "-inf:inf", "0:1" }, 3, { "-1", "0", "1" }, 1 },
 	{ "SX", 1, 2, 1, 2, 6, { "0", "1", "1/3", "-7/2", P2_60_1, P2_M70 }, 4, { "0", "1", "1/3", E30 }, 3, { "L", "G", "E" },
 		2, { "0:inf", "-inf:inf" }, 2, { "1", "-1" }, 1 },
+	/* bound-shape-rich single-row family: lower-only non-zero, upper-only negative, negative box, fixed at zero / non-zero */
+	{ "Sbq", 1, 2, 1, 1, 3, { "-1", "0", "1" }, 2, { "-1", "1" }, 4, { "L", "G", "E", "R2" },
+		6, { "0:inf", "2:inf", "-inf:-1", "-3:-1", "0:0", "1:1" }, 2, { "-1", "1" }, 1 },
 	{ "SXq", 2, 2, 2, 2, 4, { "0", "1", P2_60_1, P2_M70 }, 2, { "1", E30 }, 2, { "L", "G" },
 		2, { "0:inf", "-inf:inf" }, 2, { "1", "-1" }, 1 },
 };
